@@ -127,6 +127,7 @@ func c06Case(w *core.Worker, i int) {
 	case i == P:
 		c06Kleene(w, s)
 		c06SessionFormats(w)
+		c06Casts(w, s)
 	default:
 		c06Triples(w, s, i)
 	}
@@ -628,5 +629,22 @@ func c06SessionFormats(w *core.Worker) {
 			}
 		}
 		s.Close()
+	}
+}
+
+// c06Casts: a text that spells a floating-point number converts to an integer as that number does (INTEGER(x) = INTEGER(FLOAT(x)):
+// NULL for NaN and the infinities, the decimal places dropped otherwise), and the conversions of one value agree whichever
+// carrier hands it over (literal, variable).
+func c06Casts(w *core.Worker, s *core.Sess) {
+	for _, x := range []string{"'NaN'", "'Inf'", "'-Inf'", "'+Inf'", "'nan'", "'Infinity'", "'1.5'", "'-1.5'", "'2.9e2'", "'1e3'", "' 7.25 '", "'0.0'", "'-0.9'", "'1e-3'", "'12'", "'abc'", "''", "NULL", "'1_0'", "'0x10'", "'1.5e'", "'.5'", "'5.'"} {
+		res := s.Exec(fmt.Sprintf("VAR @c := %s; SELECT INTEGER(%s), INTEGER(FLOAT(%s)), FLOAT(%s), INTEGER(@c), INTEGER(FLOAT(@c)); DISPOSE @c;", x, x, x, x))
+		if res.Err != nil || len(res.Views) != 1 || len(res.Views[0].Rows) != 1 {
+			continue
+		}
+		r := res.Views[0].Rows[0]
+		w.Count("casts_compared", 1)
+		if r[2].T != 'N' && (r[0] != r[1] || r[3] != r[4] || r[0] != r[3]) {
+			w.Violation("cast:integer-of-a-float-text", fmt.Sprintf("INTEGER(%s) = %v but INTEGER(FLOAT(%s)) = %v (FLOAT(%s) = %v; through a variable: %v, %v)", x, r[0], x, r[1], x, r[2], r[3], r[4]), c06Replay{A: x, Expr: "INTEGER(x) = INTEGER(FLOAT(x))"})
+		}
 	}
 }
